@@ -2,7 +2,7 @@
 import ast
 import itertools
 
-from ..core import Ob, Rule, AnalysisError, norm
+from ..core import require_idiom, Ob, Rule, AnalysisError, norm
 from ..cfg import path_of
 from .. import astutil as A
 from . import datarules as D
@@ -392,9 +392,39 @@ def r4_routing(ctx):
              '' if pos_ok else 'ele_error refdes argument is not %s[1]' % var)
 
 
+def r5_attachment_lookup(ctx):
+    """a violated note is reported on the element of its first position; when the map defines fewer elements the
+    lookup must answer None (the caller then falls back to the last element) - never raise.  The bound test of
+    segment_if.get_child_node_by_idx is evaluated over index x number of children: None exactly for idx >= n."""
+    for cls in ('segment_if', 'composite_if'):
+        fn = ctx.func('map_if', cls + '.get_child_node_by_idx', required=False)
+        if fn is None:
+            continue
+        guards_ = [n for n in ast.walk(fn) if isinstance(n, ast.If) and any(isinstance(s_, ast.Return) and (s_.value is None or (isinstance(s_.value, ast.Constant) and s_.value.value is None)) for s_ in n.body)]
+        if len(guards_) != 1:
+            raise AnalysisError('%s.get_child_node_by_idx: bound test returning None not found' % cls)
+        t = A.abstract(guards_[0].test, {'len(self.children)': 'N'})
+        bad = []
+        for idx, n_ in itertools.product(range(0, 6), range(0, 5)):
+            try:
+                got = bool(A.ev(t, {'idx': idx, 'N': n_}))
+            except A.NotClosed as e:
+                raise AnalysisError('%s.get_child_node_by_idx: bound test not closed: %s' % (cls, e))
+            if got != (idx >= n_):
+                bad.append('index %d with %d children: %s' % (idx, n_, 'None' if got else 'searched (raises "idx not found")'))
+        yield Ob('map_if:%s.get_child_node_by_idx answers None exactly beyond the defined children' % cls, not bad, ctx.floc(fn, guards_[0]),
+                 '' if not bad else bad[0], detail={'evaluated': 30})
+    sf = ctx.func('map_if', 'segment_if.is_valid')
+    txt = ast.unparse(sf)
+    ok = 'get_child_node_by_ordinal(' in txt and 'is None' in txt
+    require_idiom(ok, 'c14.py:attachment fallback')
+    yield Ob('map_if:segment_if.is_valid falls back when the note points beyond the defined elements', ok, ctx.floc(sf))
+
+
 RULES = [
     Rule('C14.R1', 'syntax notes of every indexed map are well formed (parse as _split_syntax expects)', r1_data, floor=1500),
     Rule('C14.R2', 'letter list = branch labels = PRECL; fall-through rejects; position slices tile the note', r2_letters, floor=4),
     Rule('C14.R3', 'counting idiom recognised; presence test, guard and decision equal the X12 definitions on finite domains', r3_semantics, floor=15),
     Rule('C14.R4', 'failed note -> ele_error code 10 iff E else 2, result cleared; satisfied note reports nothing', r4_routing, floor=3),
+    Rule('C14.R5', 'the element a note error is attached to is looked up without raising', r5_attachment_lookup, floor=2),
 ]
